@@ -109,6 +109,8 @@ structure Routed where
 
 /-- `get_adjacency_values(input_matrix, force_bipartite, values, values_row, values_col)` (no `which`) -/
 def adjacencyValues (c : Csr Rat) (forceBip : Bool) (v r cc : Seeds) : Except PyErr Routed := do
+  -- `check_format`: a matrix without stored entry is refused
+  if c.indices.size == 0 then throw .valueError
   let given (s : Seeds) : Bool := match s with | .none => false | _ => true
   let bip := forceBip || given r || given cc || c.nRow != c.nCol
   if bip then
